@@ -15,8 +15,8 @@ from sa.srcmodel import dotted
 from sa.typestate import Typestate
 
 META = {
-    "technique": "lexer emit/resync typestate over a statement CFG with method summaries; "
-    "token-constructor argument audit; error-index bounds lint",
+    "technique": "lexer emit/resync typestate over a statement CFG with method summaries; token-constructor argument audit; "
+    "error-index bounds lint; scan-pointer progress analysis with regex minimum widths (termination of the lexer loops)",
     "level_text": "Decides, for every path through every lexer state function, that the scan pointers are "
     "re-synchronised (start == pos) at each hand-over between state functions and at each iteration of the "
     "markup loop, that every top-level token is built from (start|markup_start, pos), and that every error "
@@ -447,6 +447,8 @@ def run(prog: Program, res: Result) -> None:
                     res.fail("C17.R2", file=rel, line=sub.lineno, qualname=fi.qualname, construct=sub, message="unguarded single-index read of the source: raises IndexError at end of input", what=what)
     res.floor("C17.R2", "ErrorToken constructions", n_err, 5)
 
+    progress_rule(prog, res, lexer, lm, state_fns)
+
 
 def _definitely_advanced(lm: "LexerModel", name: str, call: ast.Call) -> bool:
     """True if, whatever the entry state, the scan pointer was advanced (and start not re-synced)
@@ -480,3 +482,305 @@ def _index_in_source(e: ast.expr) -> bool:
                 if isinstance(l, ast.Call) and isinstance(l.func, ast.Name) and l.func.id == "len" and l.args and _is_self_attr(l.args[0], "source"):
                     return True
     return False
+
+
+# ---------------------------------------------------------------------------------------------- R3 progress
+N_, A_, M_ = "no-advance", "advanced", "maybe"
+
+# one named symbol + reason: facts the 3-value lattice cannot derive
+TRUSTED_ADVANCE = {
+    "accept_token": "returns True only after `self.pos += len(value)` for a non-empty TOKEN_RULES match (checked below); the single backup() in the "
+    "LBRACKET arm re-reads that same `[`, which accept_path's `[` arm consumes again",
+}
+
+
+def _regex_min_widths(lexer: ClassInfo) -> dict[str, int]:
+    """Minimum match width of every compiled pattern attribute of the Lexer class (via re._parser)."""
+    import re._parser as sp
+
+    out: dict[str, int] = {}
+    dicts: dict[str, int] = {}
+    for name, v in lexer.class_attrs.items():
+        if isinstance(v, ast.Call) and norm(v.func) == "re.compile" and v.args:
+            pat = "".join(a.value for a in ast.walk(v.args[0]) if isinstance(a, ast.Constant) and isinstance(a.value, str))
+            try:
+                out[name] = sp.parse(pat).getwidth()[0]
+            except Exception:  # noqa: BLE001
+                out[name] = 0
+        elif isinstance(v, ast.Dict):
+            ws = []
+            for val in v.values:
+                pat = "".join(a.value for a in ast.walk(val) if isinstance(a, ast.Constant) and isinstance(a.value, str))
+                if pat:
+                    try:
+                        ws.append(sp.parse(pat).getwidth()[0])
+                    except Exception:  # noqa: BLE001
+                        ws.append(0)
+            if ws:
+                dicts[name] = min(ws)
+    for name, v in lexer.class_attrs.items():
+        if isinstance(v, ast.Call) and norm(v.func) == "_compile":
+            ws = [dicts.get(norm(a), 0) for a in v.args]
+            out[name] = min(ws) if ws else 0
+    return out
+
+
+class Progress:
+    """Has self.pos provably advanced since a reference point?"""
+
+    def __init__(self, lm: LexerModel, widths: dict[str, int]) -> None:
+        self.lm = lm
+        self.widths = widths
+        self._summ: dict[str, dict[str, str]] = {}
+        self._active: set[str] = set()
+        self.ts = Typestate(join=self._join, stmt_effect=self.stmt_effect, call_effect=self.call_effect, test_refine=self.test_refine)
+        self.fn: FunctionInfo | None = None
+
+    @staticmethod
+    def _join(a, b):  # noqa: ANN001, ANN205
+        """States: N_/A_/M_ or ("next", var, prev) = advanced if var is non-empty, else prev."""
+        if a == b:
+            return a
+
+        def j(x: str, y: str) -> str:
+            return x if x == y else M_
+
+        ta, tb = isinstance(a, tuple), isinstance(b, tuple)
+        if ta and tb:
+            if a[1] == b[1]:
+                return ("next", a[1], j(a[2], b[2]))
+            return M_
+        if ta or tb:
+            t, s = (a, b) if ta else (b, a)
+            if s == A_:
+                return ("next", t[1], j(t[2], A_))
+            return M_
+        return j(a, b)
+
+    def _regex_of(self, var: str, line: int = 10**9) -> str | None:
+        """Name of the Lexer pattern whose match object / matched text *var* holds: the textually last binding
+        at or before *line* in the current function (match variables are reused arm after arm)."""
+        fn = self.fn.node if self.fn else None
+        if fn is None:
+            return None
+        best: tuple[int, str | None] | None = None
+        for n in ast.walk(fn):
+            tgt = val = None
+            if isinstance(n, ast.NamedExpr):
+                tgt, val = n.target, n.value
+            elif isinstance(n, ast.Assign) and len(n.targets) == 1:
+                tgt, val = n.targets[0], n.value
+            if isinstance(tgt, ast.Name) and tgt.id == var and val is not None and n.lineno <= line:
+                r = None
+                if isinstance(val, ast.Call) and isinstance(val.func, ast.Attribute) and val.func.attr == "match" and _is_self_attr(val.func.value, getattr(val.func.value, "attr", "")):
+                    r = val.func.value.attr
+                elif isinstance(val, ast.Call) and isinstance(val.func, ast.Attribute) and val.func.attr == "group" and isinstance(val.func.value, ast.Name):
+                    r = self._regex_of(val.func.value.id, n.lineno)
+                if best is None or n.lineno >= best[0]:
+                    best = (n.lineno, r)
+        return best[1] if best else None
+
+    def _positive(self, e: ast.AST) -> bool:
+        """The increment expression is >= 1."""
+        line = getattr(e, "lineno", 10**9)
+        if isinstance(e, ast.Constant):
+            return isinstance(e.value, int) and e.value >= 1
+        t = norm(e)
+        import re
+
+        m = re.fullmatch(r"(\w+)\.end\(\) - \1\.start\(\)", t)
+        if m:
+            r = self._regex_of(m.group(1), line)
+            return r is not None and self.widths.get(r, 0) >= 1
+        m = re.fullmatch(r"len\((\w+)\)", t)
+        if m:
+            r = self._regex_of(m.group(1), line)
+            return r is not None and self.widths.get(r, 0) >= 1
+        return False
+
+    def stmt_effect(self, s: ast.AST, st):  # noqa: ANN001, ANN201
+        if isinstance(s, ast.AugAssign) and _is_self_attr(s.target, "pos"):
+            if isinstance(s.op, ast.Add) and self._positive(s.value):
+                return A_
+            return M_
+        if isinstance(s, ast.Assign):
+            for t in s.targets:
+                if _is_self_attr(t, "pos"):
+                    return M_
+            # plain alias of the character variable:  c = ch
+            if len(s.targets) == 1 and isinstance(s.targets[0], ast.Name) and isinstance(s.value, ast.Name) and isinstance(st, tuple) and st[1] == s.value.id:
+                return ("next", s.targets[0].id, st[2])
+            # c = self.next(): advanced iff c is non-empty
+            if len(s.targets) == 1 and isinstance(s.targets[0], ast.Name) and isinstance(s.value, ast.Call) and _is_self_attr(s.value.func, "next"):
+                prev = st if isinstance(st, str) else (A_ if st[2] == A_ else M_)
+                return A_ if prev == A_ else ("next", s.targets[0].id, prev)
+        return st
+
+    def call_effect(self, c: ast.Call, st, branch):  # noqa: ANN001, ANN201
+        f = c.func
+        if not (isinstance(f, ast.Attribute) and isinstance(f.value, ast.Name) and f.value.id == "self" and f.attr in self.lm.methods):
+            return None
+        name = f.attr
+        if name == "next":
+            return None  # handled at the assignment (needs the result variable); a bare self.next() is 'maybe'
+        if name == "accept" and c.args and isinstance(c.args[0], ast.Attribute):
+            w = self.widths.get(c.args[0].attr, 0)
+            if branch is True:
+                return A_ if w >= 1 else st
+            if branch is False:
+                return st
+            return self._join(st, A_) if w >= 1 else st
+        if name in ("backup",):
+            return M_ if st == A_ else st
+        if name in TRUSTED_ADVANCE and branch is True:
+            return A_
+        summ = self.summary(name)
+        eff = summ.get("true" if branch is True else ("false" if branch is False else "any"), summ["any"])
+        if eff == A_:
+            return A_
+        if eff == N_:
+            return st
+        return st if st == A_ and summ.get("monotone") else (A_ if st == A_ and summ.get("monotone") else (M_ if st != A_ else M_ if not summ.get("monotone") else A_))
+
+    def test_refine(self, t: ast.AST, st, branch: bool):  # noqa: ANN001, ANN201
+        if isinstance(st, tuple) and st[0] == "next":
+            var, prev = st[1], st[2]
+            neg = False
+            e = t
+            if isinstance(e, ast.UnaryOp) and isinstance(e.op, ast.Not):
+                neg, e = True, e.operand
+            if isinstance(e, ast.Name) and e.id == var:
+                truthy = branch != neg
+                return A_ if truthy else prev
+            if isinstance(e, ast.Compare) and isinstance(e.left, ast.Name) and e.left.id == var and len(e.ops) == 1 and isinstance(e.comparators[0], ast.Constant):
+                cst = e.comparators[0].value
+                eq = isinstance(e.ops[0], ast.Eq)
+                holds = branch != neg
+                if cst == "":
+                    return (prev if holds else A_) if eq else (A_ if holds else prev)
+                if isinstance(cst, str) and cst and eq and holds:
+                    return A_
+        return st
+
+    def summary(self, name: str) -> dict[str, str]:
+        if name in self._summ:
+            return self._summ[name]
+        if name in self._active:
+            return {"any": M_}
+        self._active.add(name)
+        saved = self.fn
+        try:
+            m = self.lm.methods[name]
+            self.fn = m
+            cfg = self.lm.cfg(name)
+            IN = self.ts.solve(cfg, N_)
+            outs: dict[str, str] = {}
+
+            def add(k: str, v) -> None:  # noqa: ANN001
+                v = v if isinstance(v, str) else M_
+                outs[k] = v if k not in outs else (v if outs[k] == v else M_)
+
+            for src, label in cfg.exit.pred:
+                if src.id not in IN:
+                    continue
+                out = self.ts.transfer(src, IN[src.id], label)
+                add("any", out)
+                rv = src.node.value if isinstance(src.node, ast.Return) else None
+                if isinstance(rv, ast.Constant) and rv.value is True:
+                    add("true", out)
+                elif isinstance(rv, ast.Constant) and rv.value is False:
+                    add("false", out)
+                else:
+                    add("true", out)
+                    add("false", out)
+            if "any" not in outs:
+                outs = {"any": M_}
+            # a method that never moves pos backwards keeps an earlier advance
+            moves_back = any(isinstance(x, ast.AugAssign) and _is_self_attr(x.target, "pos") and isinstance(x.op, ast.Sub) for x in ast.walk(m.node)) or any(isinstance(x, ast.Assign) and any(_is_self_attr(t, "pos") for t in x.targets) for x in ast.walk(m.node))
+            outs["monotone"] = "" if moves_back else "yes"
+            self._summ[name] = outs
+            return outs
+        finally:
+            self._active.discard(name)
+            self.fn = saved
+
+
+def progress_rule(prog: Program, res: Result, lexer: ClassInfo, lm: LexerModel, state_fns: list[str]) -> None:
+    res.rule(
+        "C17.R3",
+        "lexer progress: every `while` back edge in a Lexer method, and every hand-over `return self.<state fn>`, is reached only after "
+        "self.pos advanced (regex minimum widths from re._parser): scanning terminates within len(source) steps and no state cycle spins in place",
+    )
+    rel = lexer.file
+    widths = _regex_min_widths(lexer)
+    res.stats["regex_min_widths"] = widths
+    res.stats["trusted_advance"] = TRUSTED_ADVANCE
+    # the trusted fact is itself guarded: accept_token must start with the non-empty match + advance and return False when nothing matches
+    at = lexer.methods.get("accept_token")
+    txt = norm(at.node, 20000) if at else ""
+    what = "accept_token consumes a non-empty TOKEN_RULES match before returning True and returns False without moving otherwise"
+    if at is not None and widths.get("TOKEN_RULES", 0) >= 1 and "match = self.TOKEN_RULES.match(self.source, pos=self.pos)" in txt and "if not match: return False" in txt and "self.pos += len(value)" in txt and "value = match.group()" in txt and sum(1 for r in ast.walk(at.node) if isinstance(r, ast.Return)) == 2:
+        res.ok("C17.R3", f"{rel}:{at.node.lineno} Lexer.accept_token", what, "guard for the trusted advance fact")
+    else:
+        res.fail("C17.R3", file=rel, line=at.node.lineno if at else 0, qualname="Lexer.accept_token", construct="accept_token no longer has the match-or-False / advance shape", message="accept_token may return True without consuming input (or the token pattern can match the empty string): the expression loops may spin", what=what)
+    res.floor("C17.R3", "compiled lexer patterns", len(widths), 10)
+    P = Progress(lm, widths)
+    n_back = 0
+    for name, f in sorted(lexer.methods.items()):
+        loops = [n for n in ast.walk(f.node) if isinstance(n, ast.While)] if name != "run" else []
+        if not loops and name not in state_fns:
+            continue
+        P.fn = f
+        cfg = lm.cfg(name)
+        for loop in loops:
+            head = next((n for n in cfg.nodes if n.kind == "test" and n.node is loop.test), None)
+            if head is None:
+                continue
+            # dataflow restricted to the loop body: start at the head with "no advance yet"
+            body_ids = {n.id for n in cfg.nodes if n.node is not None and any(a is loop for a in lexer.module.ancestors(n.node))} | {head.id}
+
+            def transfer(n, st, label, head=head, body_ids=body_ids):  # noqa: ANN001, ANN202
+                return P.ts.transfer(n, st, label)
+
+            # run a forward pass seeded at the loop head only
+            IN = {head.id: N_}
+            work = [head]
+            seen_iter = 0
+            while work and seen_iter < 5000:
+                seen_iter += 1
+                n = work.pop()
+                for m_, lab in n.succ:
+                    if m_.id not in body_ids or m_ is head:
+                        continue
+                    out = transfer(n, IN[n.id], lab)
+                    old = IN.get(m_.id)
+                    new = out if old is None else P._join(old, out)
+                    if new != old:
+                        IN[m_.id] = new
+                        work.append(m_)
+            for src, label in head.pred:
+                if src.id not in body_ids or src.id not in IN or src is head:
+                    continue
+                n_back += 1
+                out = P.ts.transfer(src, IN[src.id], label)
+                st = out if isinstance(out, str) else M_
+                site = f"{rel}:{src.line} Lexer.{name}"
+                what = f"loop at line {loop.lineno}: back edge from `{norm(src.node, 50)}` only after an advance"
+                if st == A_:
+                    res.ok("C17.R3", site, what, "self.pos advanced on every path of this iteration")
+                else:
+                    res.fail("C17.R3", file=rel, line=src.line, qualname=f"Lexer.{name}", construct=f"loop@{norm(loop.test, 20)} back edge via `{norm(src.node, 50)}` [{st}]", message=f"an iteration of the loop in Lexer.{name} can return to the loop head without consuming input ({st}): the lexer may spin forever on some source text", what=what)
+        if name in state_fns:
+            IN = P.ts.solve(cfg, N_)
+            for node in cfg.nodes:
+                if node.kind == "stmt" and isinstance(node.node, ast.Return) and node.id in IN and node.node.value is not None and not (isinstance(node.node.value, ast.Constant) and node.node.value.value is None) and not cfg._is_noreturn_stmt(node.node):
+                    n_back += 1
+                    st = IN[node.id]
+                    st = st if isinstance(st, str) else M_
+                    site = f"{rel}:{node.line} Lexer.{name}"
+                    what = f"hand-over `{norm(node.node)}` only after an advance"
+                    if st == A_:
+                        res.ok("C17.R3", site, what, "input consumed since the state function was entered")
+                    else:
+                        res.fail("C17.R3", file=rel, line=node.line, qualname=f"Lexer.{name}", construct=f"{norm(node.node)} without progress [{st}]", message=f"Lexer.{name} can hand over to the next state without having consumed any input ({st}): two state functions can hand over to each other forever", what=what)
+    res.floor("C17.R3", "back edges and hand-overs examined", n_back, 20)
